@@ -168,8 +168,8 @@ def check_case(t, name, X, case):
         if not directed and not name.endswith('_paths'):
             symmetric_pairs(t, X, case, True)
     else:
-        if not directed and not name.startswith('sg_'):
-            symmetric_pairs(t, X, case, False)
+        if not directed:
+            symmetric_pairs(t, X, case, False)       # also on signed symmetric matrices (correlation networks)
         ignore_weights(t, X, case, directed, signed=name.startswith('sg_'))
     A = (X != 0)
     S = A | A.T
